@@ -9,4 +9,13 @@ pub mod distributor_channels;
 #[path = "gen/memory_pool/mod.rs"]
 pub mod memory_pool;
 
+#[path = "gen/spill_pool.rs"]
+pub mod spill_pool;
+pub mod spill_env;
+
+#[path = "gen/dynamic_filters/mod.rs"]
+pub mod dynamic_filters;
+/// `crate::PhysicalExpr` as the copied dynamic-filter source expects it.
+pub use datafusion_physical_expr_common::physical_expr::PhysicalExpr;
+
 pub mod orch;
